@@ -219,9 +219,10 @@ def payloads_upto(kind: str, maxbytes: int, enc_len: Any) -> List[Any]:
 def layer_a_minmax_units(quick: bool) -> List[Tuple[str, List[Dict[str, Any]]]]:
     progs = []
     kinds = [("A_BYTEFIELD", None, "bytes"), ("A_ASCIISTRING", None, "latin"), ("A_UTF8STRING", None, "utf8"),
-             ("A_UNICODE2STRING", None, "ucs2")]
+             ("A_UNICODE2STRING", None, "ucs2"), ("A_ASCIISTRING", "ISO-8859-2", "latin2"), ("A_ASCIISTRING", "WINDOWS-1252", "cp1252"),
+             ("A_UNICODE2STRING", "UCS-2", "ucs2")]
     syms_override = {"bytes": [b"\x00", b"\x41", b"\xff"], "latin": ["\x00", "A", "\xff"], "utf8": ["\x00", "A", "\xe9"],
-                     "ucs2": ["\x00", "A", "\uffff"]}
+                     "ucs2": ["\x00", "A", "\uffff"], "latin2": ["\x00", "\u0141", "\u02d9"], "cp1252": ["\x00", "\u20ac", "\xff"]}
     for base, enc, kind in kinds:
         SYMS_backup = SYMS[kind]
         SYMS[kind] = syms_override[kind]
@@ -238,8 +239,12 @@ def layer_a_minmax_units(quick: bool) -> List[Tuple[str, List[Dict[str, Any]]]]:
                             continue
                         for order in ((True, False) if base == "A_UNICODE2STRING" else (None,)):
                             for byte in (None, 1):  # byte 1: the value starts at an odd offset of the PDU
-                                pid = f"mm_{base[2:5]}_{term[:2]}_{mn}_{mx}_{'f' if follower else 'l'}_{ {True: 'h', False: 'l', None: 'n'}[order]}_{'a' if byte is None else byte}"
+                                if enc is not None and ((mn, mx) not in ((0, None), (2, 4)) or byte == 1):
+                                    continue
+                                pid = f"mm_{base[2:5]}{(enc or 'x')[-1]}_{term[:2]}_{mn}_{mx}_{'f' if follower else 'l'}_{ {True: 'h', False: 'l', None: 'n'}[order]}_{'a' if byte is None else byte}"
                                 dct = {"k": "MINMAX", "base": base, "min": mn, "max": mx, "term": term}
+                                if enc is not None:
+                                    dct["enc"] = enc
                                 if order is not None:
                                     dct["hilo"] = order
                                 progs.append(one_value_program(pid, {"dct": dct}, byte, None, vals, ("minmax", base, term), follower=follower))
@@ -250,11 +255,14 @@ def layer_a_minmax_units(quick: bool) -> List[Tuple[str, List[Dict[str, Any]]]]:
 
 def layer_a_lead_units(quick: bool, wide: bool = False) -> List[Tuple[str, List[Dict[str, Any]]]]:
     progs = []
-    kinds = [("A_BYTEFIELD", "bytes"), ("A_ASCIISTRING", "latin"), ("A_UTF8STRING", "utf8"), ("A_UNICODE2STRING", "ucs2")]
-    for base, kind in kinds:
+    kinds = [("A_BYTEFIELD", "bytes", None), ("A_ASCIISTRING", "latin", None), ("A_UTF8STRING", "utf8", None), ("A_UNICODE2STRING", "ucs2", None),
+             ("A_ASCIISTRING", "latin2", "ISO-8859-2"), ("A_ASCIISTRING", "cp1252", "WINDOWS-1252"), ("A_UNICODE2STRING", "ucs2", "UCS-2")]
+    for base, kind, enc in kinds:
         for (lbits, bit) in ((4, 0), (4, 4), (8, 0), (16, 0), (12, 2)):
+            if enc is not None and (lbits, bit) != (8, 0):
+                continue
             for order in (True, False):
-                vals = payloads_upto(kind, 4 if base != "A_UNICODE2STRING" else 4, enc_len_fn(base, None))
+                vals = payloads_upto(kind, 4 if base != "A_UNICODE2STRING" else 4, enc_len_fn(base, enc))
                 # a long payload to cross 4-bit limits is C04's business; one 15-byte payload here
                 long15: Any = (b"\x41" * 15) if kind == "bytes" else ("A" * 15 if kind != "ucs2" else "A" * 7)
                 vals = vals + [long15]
@@ -262,8 +270,10 @@ def layer_a_lead_units(quick: bool, wide: bool = False) -> List[Tuple[str, List[
                     u: Any = b"\x41" if kind == "bytes" else "A"
                     vals = vals + [u * 16, u * 255, u * 256, u * 65536]
                 for follower in (False, True):
-                    pid = f"ll_{base[2:5]}_{lbits}_{bit}_{'h' if order else 'l'}_{'f' if follower else 'l'}"
+                    pid = f"ll_{base[2:5]}{(enc or 'x')[-1]}_{lbits}_{bit}_{'h' if order else 'l'}_{'f' if follower else 'l'}"
                     dct = {"k": "LEAD", "base": base, "bits": lbits, "hilo": order}
+                    if enc is not None:
+                        dct["enc"] = enc
                     progs.append(one_value_program(pid, {"dct": dct}, None, bit or None, vals, ("lead", base, f"l{lbits}"), follower=follower))
     return [("A/lead", progs)]
 
@@ -278,13 +288,16 @@ def layer_a_plen_units(quick: bool) -> List[Tuple[str, List[Dict[str, Any]]]]:
         ("A_ASCIISTRING", None, ["", "A", "Az", "A\xe9z"]),
         ("A_UTF8STRING", None, ["", "A", "A\xe9", "\u20ac"]),
         ("A_UNICODE2STRING", None, ["", "A", "A€"]),
+        ("A_ASCIISTRING", "ISO-8859-2", ["", "A", "\u0141z"]),
     ]
     for base, enc, vals in kinds:
         for layout in ("key-first", "key-after-by-position"):
             for order in (True, False):
-                pid = f"pl_{base[2:5]}_{layout[4]}_{'h' if order else 'l'}"
+                pid = f"pl_{base[2:5]}{(enc or 'x')[-1]}_{layout[4]}_{'h' if order else 'l'}"
                 keyid = f"L.LK.{pid}"
                 d = {"name": "d_" + pid, "dct": {"k": "PLEN", "base": base, "hilo": order, "key": "lk", "key_id": keyid}}
+                if enc is not None:
+                    d["dct"]["enc"] = enc
                 kd = {"name": "k_" + pid, "dct": U8}
                 if layout == "key-first":
                     params = [{"t": "LENGTH-KEY", "name": "lk", "dop": kd["name"], "id": keyid},
@@ -300,7 +313,7 @@ def layer_a_plen_units(quick: bool) -> List[Tuple[str, List[Dict[str, Any]]]]:
                     if isinstance(v, (bytes, str)):
                         n = 8 * len(v) * (2 if base == "A_UNICODE2STRING" else 1)
                         if base == "A_ASCIISTRING":
-                            n = 8 * len(v.encode("latin-1"))
+                            n = 8 * len(v)
                         if base == "A_UTF8STRING":
                             n = 8 * len(v.encode("utf-8"))
                         assign.append({"v": v, "lk": n})
